@@ -64,7 +64,7 @@ func VerifC08_retryRule() {
 // symbolic availability, symbolic FailNum (a failing backend may drop out between attempts).
 func VerifC08_budget() {
 	nb := vrt.Param("NB", 2)
-	s := buildC07(vrt.Range("nb0", 1, nb), vrt.Range("nb1", 1, nb), vrt.Choose("blackhole", 1+vrt.Param("BH", 1)) == 1,
+	s := buildC07(vrt.Range("nb0", 1, nb), vrt.Range("nb1", 1, vrt.Param("NB1", nb)), vrt.Choose("blackhole", 1+vrt.Param("BH", 1)) == 1,
 		vrt.Choose("wlc", vrt.Param("MODES", 1)) == 1, false)
 	s.kinds, s.kindsRest = vrt.Param("K", 3), vrt.Param("K", 3)
 	s.requestC07("GET", 0)
